@@ -68,8 +68,8 @@ CHECKS = {
         "require_ops": ["ic.new_ff", "ic.flatmap", "ic.map_indexes_ff", "ic.iter_ff", "ic.iter_sf", "ops.iter", "ic.flatmap_sources_ff", "ic.map_values"],
     },
     "C09": {
-        "quick": {"gen": [G("MC_Lax", "MC_C09_quick.cfg"), G("MC_Lax", "MC_C09_chains.cfg")], "drive": [D("lax", 3000)]},
-        "thorough": {"gen": [G("MC_Lax", "MC_C09_thorough.cfg")], "drive": [D("lax", 50000)]},
+        "quick": {"gen": [G("MC_Lax", "MC_C09_quick.cfg"), G("MC_Quot", "MC_Quot_quick.cfg")], "drive": [D("lax", 3000)]},
+        "thorough": {"gen": [G("MC_Lax", "MC_C09_thorough.cfg"), G("MC_Lax", "MC_C09_chains.cfg"), G("MC_Quot", "MC_Quot_thorough.cfg")], "drive": [D("lax", 50000)]},
         "require_ops": ["lax.quotient", "lax.h.quotient", "lax.h.coequalizer"],
     },
     "C10": {
